@@ -14,7 +14,7 @@ python3 - "$d" "$id" "$prop" "$title" <<'PY'
 import json,sys
 d,i,p,t=sys.argv[1:5]
 json.dump({"id":i,"breaks_property":p,"property_title":t,
- "origin":"written by an independent sub-agent that saw only the property text and a scratch worktree of /repo (tenth batch: told which earlier ideas not to repeat and to prefer a site that is not the obvious function for the property)",
+ "origin":"written by an independent sub-agent that saw only the property text and a scratch worktree of /repo (eleventh batch: told which earlier ideas not to repeat and to prefer a site that is not the obvious function for the property)",
  "needs_to_manifest":"see NOTES.md (written by the sub-agent)",
  "confirmed_by_me":"lib/confirm_seed.sh <worktree> %s: crate builds; cargo test --offline --no-fail-fast passes all pre-existing tests with the change; tests/demo_%s.rs fails with the change and passes with `git stash push -- src`"%(p,p),
  "applies_to_repo_commit":"14ae7fb or later (git -C /repo apply patch.diff)",
